@@ -121,6 +121,7 @@ def run_annotate(case, sc):
     # wrappers whose body ends in a call of another un-annotated function: their return type is only known through
     # that callee
     wrappers = []
+    forced_lets = []
     simple = {G.INT: lambda: G.E("int", G.INT, v=2), G.STR: lambda: G.E("str", G.STR, v="w"), G.BOOL: lambda: G.E("bool", G.BOOL, v=True)}
     for f in list(pr["funs"]):
         if f["ret"] != G.UNIT and not f.get("recursive") and all(isinstance(t, str) and t in simple for _, _, t in f["params"]) and len(wrappers) < 2:
@@ -133,6 +134,16 @@ def run_annotate(case, sc):
             pr["main"].append({"k": "expr", "e": G.E("call", G.UNIT, False, f["total"], fn="println", builtin=True,
                                                     args=[G.E("call", G.STR, fn="string_repr", builtin=True, args=[use])])})
             wrappers.append(wname)
+            # values built from a call of an un-annotated function: the checker knows nothing about their component
+            arg = lambda: G.E("call", f["ret"], f["pure"], f["total"], fn=wname, args=[simple[t]() for _, _, t in params])
+            lname, pname = "verif_l_" + f["name"], "verif_p_" + f["name"]
+            pr["main"].append({"k": "let", "name": lname, "bid": 0, "ann": None, "e": G.E("list", ["List", f["ret"]], f["pure"], f["total"], items=[arg()])})
+            pr["main"].append({"k": "let", "name": pname, "bid": 0, "ann": None,
+                               "e": G.E("tuple", ["Tuple", [G.INT, f["ret"]]], f["pure"], f["total"], items=[G.E("int", G.INT, v=1), arg()])})
+            for nm, ty in ((lname, ["List", f["ret"]]), (pname, ["Tuple", [G.INT, f["ret"]]])):
+                pr["main"].append({"k": "expr", "e": G.E("call", G.UNIT, False, True, fn="println", builtin=True,
+                                                        args=[G.E("call", G.STR, fn="string_repr", builtin=True, args=[G.E("var", ty, name=nm, bid=0)])])})
+            forced_lets.extend([lname, pname])
     src, p = printer.print_program(pr, annotate=False)
     path = sc.file(src)
     base = core.run_garden(["run", path], timeout=30, cwd=sc.dir)
@@ -156,11 +167,16 @@ def run_annotate(case, sc):
     for f in pr["funs"]:
         st = src.find("fun %s(" % f["name"]) + 4
         pos.append(("return", st, st + len(f["name"]), f["ret"]))
+    forced_pos = []
+    for nm in forced_lets:
+        st = src.find("let %s = " % nm)
+        if st >= 0:
+            forced_pos.append(("let", st + 4, st + 4 + len(nm), None))
     rng = random.Random(case["seed"])
     forced = [q for q in pos if q[0] == "return" and ((bare_return and src[q[1]:q[2]] == bare_return) or src[q[1]:q[2]] in wrappers)]
     if len(pos) > 8:
         pos = rng.sample(pos, 8)
-    pos = forced + [q for q in pos if q not in forced]
+    pos = forced + forced_pos + [q for q in pos if q not in forced]
     keys = set()
     for kind, st, en, ty in pos:
         r = core.run_garden(["reftest-add-type-annotation", path, str(st), str(en)], timeout=30, cwd=sc.dir)
